@@ -1342,7 +1342,7 @@ def run(ctx):
     for _ in range(120 if quick else 1500):
         check_score_unit(ctx, rng)
     # ---- file layer --------------------------------------------------------
-    n_files = 24 if quick else 300
+    n_files = 20 if quick else 300
     for k in range(n_files):
         prob, cfg = gen_file_case(rng, ctx.tier)
         run_file_case(ctx, prob, cfg)
